@@ -72,6 +72,7 @@ use std::cmp::Ordering;
 use std::convert::Infallible;
 use std::ffi::OsStr;
 use std::fmt::{self, Debug, Display, Formatter};
+use std::iter;
 use std::path::{Path, PathBuf};
 use std::str::{self, FromStr};
 use thiserror::Error;
@@ -100,7 +101,11 @@ trait CharExt: Sized {
 
 impl CharExt for char {
     fn has_casing(self) -> bool {
-        self.is_lowercase() != self.is_uppercase()
+        // Titlecase letters (such as `ǅ`) are neither lowercase nor uppercase, but have lowercase
+        // and uppercase mappings and so are matched case-insensitively.
+        (self.is_lowercase() != self.is_uppercase())
+            || !self.to_lowercase().eq(iter::once(self))
+            || !self.to_uppercase().eq(iter::once(self))
     }
 }
 
